@@ -185,7 +185,7 @@ def build(tier, seed, known):
     # numeric parameter slot: any text that passes isnumeric() may only surface as a number constant (or transpile raises)
     src += "REF_fn_param_num = transpile_struct_det(STRUCT.FunctionDef('f', ['7'], BODY))\n"
     src += "NUMERALS = '0123456789' + '²½' + chr(0x217d) + chr(0x217f) + chr(0x0663) + chr(0x4e00) + chr(0x2460) + chr(0x2167) + chr(0xff11)\n"
-    add("fn_param_numeric", "ident", "p: str", ["1 <= len(p) <= 2", "all(ch in NUMERALS for ch in p)"],
+    add("fn_param_numeric", "ident", "p: str", ["1 <= len(p) <= 2", "all(ch in NUMERALS for ch in p)"] + (["len(p) == 1 or p[0] == '1' or p[0] == chr(0x217d)"] if tier == "quick" else []),
         ["try:", "    out = transpile_struct_det(STRUCT.FunctionDef('f', [p], BODY))", "except ValueError:", "    return note('transpile raised: nothing returned')",
          "return ast_confirm(out, REF_fn_param_num) or explain('numeric parameter text surfaced outside a number constant')"], 600,
         "FunctionDef lowering with a numeric-looking parameter (digits and Unicode numerals that pass isnumeric): AST == AST for parameter 7 with constants blanked, or transpile raises", "parameter over ASCII digits and 9 Unicode numerals (superscript, fraction, Roman, Arabic-Indic, CJK, circled, full-width), len 1..2 (realisation-exhausted)")
